@@ -12,6 +12,9 @@ RULE = ("tick-aligned windows with duration, step in 1..4 ticks and start in -2.
         "in -6..10 (inside, straddling or before the window start, shorter than a frame, empty) x fixed in "
         "{None, 0, 1, duration, duration+2*step+1}; timeline focuses (overlapping, abutting, tiny, empty) of up to 4 "
         "segments; each mode, index-array and return_ranges forms; random larger geometries; regimes K0, K4; "
+        "tolerance tier: decimal (non-dyadic) steps 0.01, 0.016, 1/3, ... and durations, focus bounds on, next to and "
+        "between frame boundaries, passed as exact integers in units of 2^-130 s, each observed range bound required to "
+        "be the rounding of a quotient within 2^-40 x (sum of operand magnitudes) / step of the exact one; "
         "non-trivial = the loose result has at least two frames")
 
 
@@ -38,14 +41,51 @@ def generate(rng, tier):
             cases.append({"k": "seg", "regime": regime, "dur": d * u, "step": s * u, "start": st * u,
                           "focus": [a * u, (a + rng.randrange(0, 120)) * u],
                           "fixed": rng.choice([None, None, rng.randrange(0, 100) * u])})
+    # tolerance tier: decimal (non-dyadic) window parameters and focus bounds, as real users write them;
+    # bounds placed on and next to frame boundaries so that the exact quotients sit at or near rounding ties
+    steps = [0.01, 0.02, 0.016, 0.1, 0.25, 1 / 3, 0.005, 0.0125]
+    for _ in range(6000 if tier == "thorough" else 800):
+        step = rng.choice(steps)
+        dur = rng.choice([step, 2.5 * step, 3 * step, 0.025, 0.03, 0.1, 1.0, step / 2])
+        start = rng.choice([0.0, 0.0, 0.5, -0.37, 100.2, 12.34])
+        def bound():
+            k = rng.randrange(-5, 400)
+            base = start + k * step
+            jit = rng.choice([0.0, dur, -dur, dur / 2, -dur / 2, 1e-9, -1e-9, step / 2, rng.uniform(-step, step),
+                              rng.uniform(-3.0, 3.0)])
+            return base + jit
+        a, b = sorted([bound(), bound()])
+        cases.append({"k": "segf", "regime": "K0", "dur": dur.hex(), "step": step.hex(), "start": float(start).hex(),
+                      "focus": [a.hex(), b.hex()]})
     kinds = {}
     for c in cases:
         kinds[c["k"]] = kinds.get(c["k"], 0) + 1
     return {"cases": cases, "meta": {"exhaustive": tier == "thorough", "kinds": kinds}}
 
 
+def _fx(h):
+    """exact value of a binary64 (given as hex) in units of 2^-130"""
+    from fractions import Fraction
+    v = Fraction(float.fromhex(h)) * (1 << 130)
+    if v.denominator != 1:
+        raise ValueError("float too small for the 2^-130 grid")
+    return int(v)
+
+
 def run(case):
     from pyannote.core import SlidingWindow, Timeline
+    if case["k"] == "segf":
+        from pyannote.core import Segment
+        fl = float.fromhex
+        w = SlidingWindow(duration=fl(case["dur"]), step=fl(case["step"]), start=fl(case["start"]))
+        f = Segment(fl(case["focus"][0]), fl(case["focus"][1]))
+        out = []
+        for m in ("loose", "strict", "center"):
+            (i, j), = w.crop(f, mode=m, return_ranges=True)
+            idx = w.crop(f, mode=m)
+            assert [int(x) for x in idx] == list(range(int(i), int(j)))
+            out.append([int(i), int(j)])
+        return {"obs": out}
     tb = TB(case["regime"])
     tb.enter()
     try:
@@ -73,6 +113,9 @@ def run(case):
 
 def encode(case, o):
     e = enc
+    if case["k"] == "segf":
+        return (f"KSegF {e.z(_fx(case['dur']))} {e.z(_fx(case['step']))} {e.z(_fx(case['start']))} "
+                f"{e.seg([_fx(case['focus'][0]), _fx(case['focus'][1])])} {e.lst([e.pair(e.z(a), e.z(b)) for a, b in o['obs']])}")
     eps = REGIMES[case["regime"]]["eps"]
     geo = f"{e.z(case['dur'])} {e.z(case['step'])} {e.z(case['start'])}"
     obs = e.lst([f"(O1 {e.zs(x['idx'])} {e.lst([e.pair(e.z(a), e.z(b)) for a, b in x['rng']])})" for x in o["obs"]])
@@ -82,6 +125,8 @@ def encode(case, o):
 
 
 def nontrivial(case, o):
+    if case["k"] == "segf":
+        return o["obs"][0][1] - o["obs"][0][0] >= 2
     return len(o["obs"][0]["idx"]) >= 2
 
 
